@@ -117,6 +117,21 @@ func c20Variables(c *ev.Ctx) {
 			if o.Desc() != eng.Describe(v) || evr.Var("y") != eng.Describe(v) || evr.Var("x") != eng.Describe(v) {
 				c.Violation(id, "SetVariable value not read back", map[string]interface{}{"summary": fmt.Sprintf("SetVariable(x, %s): script returned %s, GetVariable(y)=%s", eng.Describe(v), o.Desc(), evr.Var("y"))})
 			}
+			// the same when the object has fields of those names: whatever value the variable
+			// holds (null, false, empty ...), it is the variable the script reads
+			for oi, obj := range []interface{}{map[string]interface{}{"x": "field-x", "y": "field-y"}, struct{ x, X, y string }{"fx", "fX", "fy"}, &struct{ X int }{7}} {
+				evr2, err := eng.New(`y = x; return x;`, eng.Options{NoOptimize: noOpt, ObjVars: map[string]object.Object{"x": eng.CloneObject(v)}})
+				if err != nil {
+					continue
+				}
+				if o := evr2.Exec(obj); o.Desc() != eng.Describe(v) || evr2.Var("y") != eng.Describe(v) || evr2.Var("x") != eng.Describe(v) {
+					c.Violation(id, "SetVariable value not read when the object has a field of that name", map[string]interface{}{"summary": fmt.Sprintf("SetVariable(x, %s), object #%d with a field x: script returned %s, GetVariable(y)=%s GetVariable(x)=%s", eng.Describe(v), oi, o.Desc(), evr2.Var("y"), evr2.Var("x"))})
+				}
+				b, _, _, _ := evr2.RunBool(obj)
+				if want := v.True(); b != want {
+					c.Violation(id, "Run differs from the truth of the variable", map[string]interface{}{"summary": fmt.Sprintf("SetVariable(x, %s), object #%d with a field x: Run gives %v, the variable's truth is %v", eng.Describe(v), oi, b, want)})
+				}
+			}
 			if evr.Var("never") != "NULL:null" {
 				c.Violation(id, "GetVariable of an unassigned name", map[string]interface{}{"summary": "GetVariable(never) = " + evr.Var("never")})
 			}
